@@ -428,7 +428,8 @@ def result_oracle_ns(ctx, fs, cut_by_cap):
         if not oracles.close(fs.logZ, lz2, rtol=1e-9, atol=1e-9) or not oracles.close(lpw, lw2, rtol=1e-9, atol=1e-9):
             viol("RES-NS-onepass", {"reported": float(fs.logZ), "onepass": float(lz2)})
     d = ns.get_result_dictionary()
-    if d["log_evidence"] != fs.logZ or d["log_evidence_error"] != fs.logZ_error:
+    if not (oracles.close(d["log_evidence"], fs.logZ, rtol=0, atol=0)
+            and oracles.close(d["log_evidence_error"], fs.logZ_error, rtol=0, atol=0)):
         viol("RES-NS-dict-evidence", {})
     if np.asarray(d["nested_samples"]).tobytes() != samples.tobytes():
         viol("RES-NS-dict-samples", {})
